@@ -1295,6 +1295,24 @@ fn derive_reprc_new(input: DeriveInput) -> TokenStream {
                 return implement_reprc_hardcoded_false(name.clone(), &input);
             }
 
+            for (variant_index, variant) in enum1.variants.iter().enumerate() {
+                if let Some((_, expr)) = &variant.discriminant {
+                    let same_as_index = match expr {
+                        syn::Expr::Lit(syn::ExprLit {
+                            lit: syn::Lit::Int(lit),
+                            ..
+                        }) => lit.base10_parse::<usize>().ok() == Some(variant_index),
+                        _ => false,
+                    };
+                    if !same_as_index {
+                        if opt_in_fast {
+                            abort!(expr.span(), "The #[savefile_require_fast] attribute requires enum discriminants to be equal to the variant index");
+                        }
+                        return implement_reprc_hardcoded_false(name.clone(), &input);
+                    }
+                }
+            }
+
             let mut conditions = vec![];
 
             let mut min_safe_version: u32 = 0;
